@@ -23,7 +23,7 @@ def case_fn(c):
     elif kind == "overrides":
         fails = oracle.check_overrides(c["model"], c["ops"], c["vec"], seed=c.get("seed", 0))
     elif kind == "readonly":
-        fails = oracle.check_read_only(c["model"], c["ops"], seed=c.get("seed", 0))
+        fails = oracle.check_read_only(c["model"], c["ops"], seed=c.get("seed", 0), dict_vars=c.get("dict_vars", False))
     elif kind == "inputs":
         fails = oracle.check_inputs(c["model"], c["inputs"], c["vec"], solver=c.get("solver", "euler"), T=c.get("T", 1.0), dt=c.get("dt", 0.05))
     elif kind == "population":
